@@ -1,4 +1,4 @@
-import ElvisVerif.Lemmas.TcbSnd
+import ElvisVerif.Lemmas.TcbArrive
 import ElvisVerif.Model.TcpSys
 /-!
 # The closed two-endpoint system: RCV.NXT of one side never passes SND.NXT of the other
@@ -235,5 +235,584 @@ theorem inv_respond (sys : Sys) (hi : Inv sys) (z : SideId) (hz : (sys.side z).t
       · exact Or.inl ⟨h1, h2⟩
       · exact Or.inr ⟨h1, h2⟩
     · exact hi.ports σ h
+
+/-! ## a segment arrives at a side that has a TCB -/
+
+theorem inv_arrive_tcb (sys : Sys) (hi : Inv sys) (hroom : RoomOk sys) (z : SideId) (u u' : Tcb) (σ : Segment)
+    (hu : (sys.side z).tcb = some u) (hσ : σ ∈ sys.history) (hsrc : σ.hdr.srcPort = z.peer.port)
+    (e : u.segmentArrives σ = .ok (u', .Ok)) (sd' : Side) (hsd : sd'.tcb = some u')
+    (hl : sd'.listen = (sys.side z).listen) : Inv (sys.setSide z sd') := by
+  have hside : ∀ y, (sys.setSide z sd').side y = if y = z then sd' else sys.side y := by
+    intro y
+    rcases side_cases z y with rfl | rfl
+    · rw [side_setSide_same]; simp
+    · rw [side_setSide_peer, if_neg (SideId.peer_ne _)]
+  have k := segmentArrives_snd u σ u' .Ok e
+  have hsent : u'.sent = u.sent := sent_congr k.iss k.nxt
+  refine ⟨fun x => ?_, by rw [history_setSide]; exact hi.ports, ?_⟩
+  · have L := hi.link x
+    rcases side_cases z x with rfl | rfl
+    · -- the receiving side as sender: nothing it has sent changes
+      refine ⟨?_, ?_, ?_, ?_⟩
+      · intro t ht
+        rw [hside, if_pos rfl, hsd] at ht
+        cases ht
+        obtain ⟨b, p1, p2⟩ := L.snd u hu
+        exact ⟨k.below b, by rw [k.lp, p1], by rw [k.rp, p2]⟩
+      · intro t ht τ hτ hs
+        rw [hside, if_pos rfl, hsd] at ht
+        cases ht
+        rw [history_setSide] at hτ
+        rw [k.iss, hsent]
+        exact L.hist u hu τ hτ hs
+      · intro t w ht hw
+        rw [hside, if_pos rfl, hsd] at ht
+        cases ht
+        rw [hside, if_neg (SideId.peer_ne _)] at hw
+        rw [k.iss, hsent]
+        exact L.rcv u w hu hw
+      · intro ht
+        rw [hside, if_pos rfl, hsd] at ht
+        simp at ht
+    · -- the peer as sender, the receiving side as receiver
+      have hxz : z.peer ≠ z := SideId.peer_ne z
+      refine ⟨?_, ?_, ?_, ?_⟩
+      · intro t ht; rw [hside, if_neg hxz] at ht; exact L.snd t ht
+      · intro t ht τ hτ hs
+        rw [hside, if_neg hxz] at ht
+        rw [history_setSide] at hτ
+        exact L.hist t ht τ hτ hs
+      · intro t w ht hw
+        rw [hside, if_neg hxz] at ht
+        rw [SideId.peer_peer, hside, if_pos rfl, hsd] at hw
+        cases hw
+        obtain ⟨r1, r2⟩ := L.rcv t u ht (by rw [SideId.peer_peer]; exact hu)
+        have hN : t.sent < 2147483648 := by
+          have := hroom z.peer t ht
+          unfold Room at this; omega
+        obtain ⟨st, hh'⟩ := segmentArrives_rcv u σ u' e t.snd.iss t.sent hN r1 (L.hist t ht σ hσ hsrc) r2
+        exact ⟨st.below, hh'⟩
+      · intro ht hlis
+        rw [hside, if_neg hxz] at ht hlis
+        obtain ⟨f1, f2⟩ := L.fresh ht hlis
+        refine ⟨fun τ hτ hs => f1 τ (by rw [history_setSide] at hτ; exact hτ) hs, fun w hw => ?_⟩
+        rw [SideId.peer_peer, hside, if_pos rfl, hsd] at hw
+        cases hw
+        obtain ⟨g1, g2⟩ := f2 u (by rw [SideId.peer_peer]; exact hu)
+        have hσ0 := f1 σ hσ hsrc
+        refine ⟨segmentArrives_synsent_stays u σ u' e g1 hσ0.2 (fun x hx => (g2 x hx).2), fun x hx => ?_⟩
+        rcases List.mem_cons.1 (segmentArrives_heap_sub u σ u' .Ok e x hx) with rfl | h
+        · exact hσ0
+        · exact g2 x h
+  · have ha : (sys.setSide z sd').a = (sys.setSide z sd').side .A := rfl
+    rw [ha, hside]
+    split
+    · rename_i hz; rw [hl, ← hz]; exact hi.noListenA
+    · exact hi.noListenA
+
+/-! ## the passive side creates its TCB -/
+
+theorem inv_create (sys : Sys) (hi : Inv sys) (z : SideId) (iss : Seq) (mtu : U16) (σ : Segment) (tcb : Tcb)
+    (hz : (sys.side z).tcb = none) (hlis : (sys.side z).listen = some (iss, mtu))
+    (hσ : σ ∈ sys.history) (hsrc : σ.hdr.srcPort = z.peer.port) (hdst : σ.hdr.dstPort = z.port)
+    (e : segmentArrivesListen σ iss mtu = .ok (some (.Tcb tcb))) (sd' : Side) (hsd : sd'.tcb = some tcb)
+    (hl : sd'.listen = (sys.side z).listen) : Inv (sys.setSide z sd') := by
+  have hside : ∀ y, (sys.setSide z sd').side y = if y = z then sd' else sys.side y := by
+    intro y
+    rcases side_cases z y with rfl | rfl
+    · rw [side_setSide_same]; simp
+    · rw [side_setSide_peer, if_neg (SideId.peer_ne _)]
+  obtain ⟨cb, ciss, csent, clp, crp, cst, cnxt, csyn, σ', cheap, cseq, csyn', clen⟩ := listen_create σ iss mtu tcb e
+  have hzB : z = .B := by
+    cases z with
+    | A =>
+      have : sys.a.listen = some (iss, mtu) := hlis
+      rw [hi.noListenA] at this; simp at this
+    | B => rfl
+  have Lz := hi.link z
+  obtain ⟨f1, f2⟩ := Lz.fresh hz (by rw [hlis]; rfl)
+  refine ⟨fun x => ?_, by rw [history_setSide]; exact hi.ports, ?_⟩
+  · rcases side_cases z x with rfl | rfl
+    · refine ⟨?_, ?_, ?_, ?_⟩
+      · intro t ht
+        rw [hside, if_pos rfl, hsd] at ht
+        cases ht
+        exact ⟨cb, by rw [clp, hdst], by rw [crp, hsrc]⟩
+      · intro t ht τ hτ hs
+        rw [hside, if_pos rfl, hsd] at ht
+        cases ht
+        rw [history_setSide] at hτ
+        exact segBelow_of_empty _ _ _ (f1 τ hτ hs)
+      · intro t w ht hw
+        rw [hside, if_pos rfl, hsd] at ht
+        cases ht
+        rw [hside, if_neg (SideId.peer_ne _)] at hw
+        obtain ⟨g1, g2⟩ := f2 w hw
+        exact ⟨fun hne => absurd g1 hne, fun x hx => segBelow_of_empty _ _ _ (g2 x hx)⟩
+      · intro ht
+        rw [hside, if_pos rfl, hsd] at ht
+        simp at ht
+    · have hxz : z.peer ≠ z := SideId.peer_ne z
+      have L := hi.link z.peer
+      refine ⟨?_, ?_, ?_, ?_⟩
+      · intro t ht; rw [hside, if_neg hxz] at ht; exact L.snd t ht
+      · intro t ht τ hτ hs
+        rw [hside, if_neg hxz] at ht
+        rw [history_setSide] at hτ
+        exact L.hist t ht τ hτ hs
+      · intro t w ht hw
+        rw [hside, if_neg hxz] at ht
+        rw [SideId.peer_peer, hside, if_pos rfl, hsd] at hw
+        cases hw
+        have hv := L.hist t ht σ hσ hsrc
+        have hbase := hv.syn csyn
+        have hpos : 0 < σ.segLen := by unfold Segment.segLen; rw [csyn]; simp only [Bool.toNat_true]; omega
+        have hlen := hv.len hpos
+        have o0 : off t.snd.iss σ.hdr.seq = 0 := by rw [hbase]; exact off_self _
+        rw [o0] at hlen
+        refine ⟨fun _ => ?_, fun x hx => ?_⟩
+        · rw [cnxt, hbase, off_add_one _ _ (by rw [off_self]; omega), off_self]
+          omega
+        · rw [cheap] at hx
+          simp only [List.mem_singleton] at hx
+          subst hx
+          refine ⟨fun h => by rw [csyn'] at h; simp at h, fun _ => ?_⟩
+          rw [cseq, o0]
+          omega
+      · intro ht hlis'
+        rw [hside, if_neg hxz] at ht hlis'
+        -- the peer of B is A, which never listens
+        subst hzB
+        have : sys.a.listen.isSome = true := hlis'
+        rw [hi.noListenA] at this; simp at this
+  · have ha : (sys.setSide z sd').a = (sys.setSide z sd').side .A := rfl
+    rw [ha, hside, hzB]
+    rw [if_neg (by decide)]
+    exact hi.noListenA
+
+/-! ## local operations -/
+
+theorem sndBelow_of_frame {t t' : Tcb} (h : SndBelow t) (h1 : t'.snd.iss = t.snd.iss) (h2 : t'.snd.nxt = t.snd.nxt)
+    (h3 : ∀ x ∈ t'.outgoing.retransmit, ∃ y ∈ t.outgoing.retransmit, y.segment = x.segment)
+    (h4 : t'.outgoing.oneshot = t.outgoing.oneshot) (h5 : t'.localPort = t.localPort)
+    (h6 : t'.remotePort = t.remotePort) : SndBelow t' := by
+  have hs : t'.sent = t.sent := sent_congr h1 h2
+  refine ⟨by rw [hs]; exact h.pos, fun x hx => ?_, fun x hx => h.plain x (by rw [h4] at hx; exact hx),
+    fun x hx => ?_, fun x hx => by rw [h5, h6]; exact h.oports x (by rw [h4] at hx; exact hx)⟩
+  · obtain ⟨y, hy, hxy⟩ := h3 x hx
+    rw [hs, h1, ← hxy]; exact h.queue y hy
+  · obtain ⟨y, hy, hxy⟩ := h3 x hx
+    rw [h5, h6, ← hxy]; exact h.qports y hy
+
+theorem send_local (t : Tcb) (m : List UInt8) :
+    Frame t (t.send m) ∧ (t.send m).sent = t.sent ∧ (SndBelow t → SndBelow (t.send m)) := by
+  unfold send
+  split <;> exact ⟨⟨rfl, rfl, rfl, Iff.rfl, rfl, rfl⟩, rfl,
+    fun h => sndBelow_of_frame h rfl rfl (fun x hx => ⟨x, hx, rfl⟩) rfl rfl rfl⟩
+
+theorem receive_local (t : Tcb) :
+    Frame t t.receive.1 ∧ t.receive.1.sent = t.sent ∧ (SndBelow t → SndBelow t.receive.1) := by
+  unfold receive
+  split <;> exact ⟨⟨rfl, rfl, rfl, Iff.rfl, rfl, rfl⟩, rfl,
+    fun h => sndBelow_of_frame h rfl rfl (fun x hx => ⟨x, hx, rfl⟩) rfl rfl rfl⟩
+
+theorem advanceTime_local (t : Tcb) (dt : Nat) (t' : Tcb) (e : t.advanceTime dt = .ok (t', .Ignore)) :
+    Frame t t' ∧ t'.sent = t.sent ∧ (SndBelow t → SndBelow t') := by
+  unfold advanceTime at e
+  cases h1 : t.advanceRetransmission dt with
+  | error err => rw [h1] at e; simp at e
+  | ok t1 =>
+    rw [h1] at e
+    dsimp only at e
+    have k1 : Frame t t1 ∧ t1.sent = t.sent ∧ (SndBelow t → SndBelow t1) := by
+      unfold advanceRetransmission at h1
+      split at h1
+      · cases h1
+        refine ⟨⟨rfl, rfl, rfl, Iff.rfl, rfl, rfl⟩, rfl, fun h => sndBelow_of_frame h rfl rfl (fun x hx => ?_) rfl rfl rfl⟩
+        obtain ⟨y, hy, rfl⟩ := List.mem_map.1 hx
+        exact ⟨y, hy, rfl⟩
+      · cases h1
+        exact ⟨⟨rfl, rfl, rfl, Iff.rfl, rfl, rfl⟩, rfl,
+          fun h => sndBelow_of_frame h rfl rfl (fun x hx => ⟨x, hx, rfl⟩) rfl rfl rfl⟩
+    have lift : ∀ t2 : Tcb, t2.localPort = t1.localPort → t2.remotePort = t1.remotePort → t2.snd = t1.snd →
+        t2.state = t1.state → t2.rcv = t1.rcv → t2.incoming = t1.incoming → t2.outgoing = t1.outgoing →
+        Frame t t2 ∧ t2.sent = t.sent ∧ (SndBelow t → SndBelow t2) := by
+      intro t2 a b c d f g o
+      obtain ⟨fr, hs, hb⟩ := k1
+      refine ⟨⟨a.trans fr.lp, b.trans fr.rp, by rw [c]; exact fr.iss, by rw [d]; exact fr.synsent,
+        f.trans fr.rcv, by rw [g]; exact fr.heap⟩, by unfold sent at hs ⊢; rw [c]; exact hs, fun h => ?_⟩
+      exact sndBelow_of_frame (hb h) (by rw [c]) (by rw [c]) (fun x hx => ⟨x, by rw [o] at hx; exact hx, rfl⟩)
+        (by rw [o]) a b
+    split at e
+    · split at e
+      · simp at e
+      · simp only [Except.ok.injEq, Prod.mk.injEq, and_true] at e
+        subst e
+        exact lift _ rfl rfl rfl rfl rfl rfl rfl
+    · simp only [Except.ok.injEq, Prod.mk.injEq, and_true] at e
+      subst e
+      exact k1
+
+theorem segmentize_rx (maxSeg fuel : Nat) (s : Tcb) (q : Nat) (s' : Tcb)
+    (e : segmentize maxSeg fuel s q = .ok s') : s'.rcv = s.rcv ∧ s'.incoming = s.incoming := by
+  induction fuel generalizing s q with
+  | zero => unfold segmentize at e; cases e; exact ⟨rfl, rfl⟩
+  | succ n ih =>
+    unfold segmentize at e
+    dsimp only at e
+    split at e
+    · cases e; exact ⟨rfl, rfl⟩
+    · split at e
+      · simp at e
+      · have := ih _ _ e
+        exact ⟨this.1, this.2⟩
+
+theorem queueFin_rx (s s' : Tcb) (e : s.queueFin = .ok s') : s'.rcv = s.rcv ∧ s'.incoming = s.incoming := by
+  unfold queueFin at e
+  split at e
+  · rw [enqueue_eq] at e
+    dsimp only at e
+    cases e
+    exact ⟨by simp only [(enqueueBuilt_frame _ _).2.1], by simp only [(enqueueBuilt_frame _ _).2.2.2.1]⟩
+  · cases e; exact ⟨rfl, rfl⟩
+
+theorem segments_rx (s s' : Tcb) (out : List Segment) (e : s.segments = .ok (s', out)) :
+    s'.rcv = s.rcv ∧ s'.incoming = s.incoming := by
+  unfold segments at e
+  dsimp only at e
+  cases h1 : segmentizeIfOpen { s with outgoing.oneshot := [] } with
+  | error err => rw [h1] at e; simp at e
+  | ok s1 =>
+    rw [h1] at e
+    dsimp only at e
+    have k1 : s1.rcv = s.rcv ∧ s1.incoming = s.incoming := by
+      unfold segmentizeIfOpen at h1
+      split at h1
+      all_goals first
+        | (cases h1; exact ⟨rfl, rfl⟩)
+        | (split at h1
+           · simp at h1
+           · have := segmentize_rx _ _ _ _ _ h1
+             exact this)
+    cases h2 : finIfPending s.finPending s1 with
+    | error err => rw [h2] at e; simp at e
+    | ok s2 =>
+      rw [h2] at e
+      dsimp only at e
+      have k2 : s2.rcv = s1.rcv ∧ s2.incoming = s1.incoming := by
+        unfold finIfPending at h2
+        split at h2
+        · exact queueFin_rx _ _ h2
+        · cases h2; exact ⟨rfl, rfl⟩
+      simp only [Except.ok.injEq, Prod.mk.injEq] at e
+      obtain ⟨hs', _⟩ := e
+      rw [← hs']
+      split <;> exact ⟨k2.1.trans k1.1, k2.2.trans k1.2⟩
+
+theorem close_synsent (s s' : Tcb) (r : CloseResult) (e : s.close = .ok (s', r)) :
+    s'.state = .SynSent ↔ s.state = .SynSent := by
+  obtain ⟨s1, r1, e1, _, st1⟩ := close_spec s
+  rw [e1] at e
+  cases e
+  refine ⟨st1, fun h => ?_⟩
+  unfold close at e1
+  rw [h] at e1
+  cases e1
+  exact h
+
+/-! ## one step of the system -/
+
+/-- ops of a single incarnation without forged segments: deliveries hand a history element to
+    the side it is addressed to (as `Tcp::demux` routes by the endpoint pair) -/
+def Op.Clean (sys : Sys) : Op → Prop
+  | .deliver x i => ∀ σ, sys.nth i = some σ → σ.hdr.srcPort = x.peer.port ∧ σ.hdr.dstPort = x.port
+  | .write .. => True
+  | .read _ => True
+  | .tick .. => True
+  | .emit _ => True
+  | .close _ => True
+  | _ => False
+
+theorem hdr_build_some {h hd : Hdr} {n : Nat} (hb : h.build n = some hd) : hd = h.built := by
+  unfold Hdr.build at hb
+  split at hb
+  · simp at hb
+  · simp only [Option.some.injEq] at hb
+    exact hb.symm
+
+theorem record_nil (s : Sys) : s.record [] = s := by
+  cases s; simp [Sys.record]
+
+/-- `inv_update` without emission -/
+theorem inv_update0 (sys : Sys) (hi : Inv sys) (z : SideId) (t t' : Tcb) (sd' : Side)
+    (ht : (sys.side z).tcb = some t) (hsd : sd'.tcb = some t') (hl : sd'.listen = (sys.side z).listen)
+    (fr : Frame t t') (hmono : t.sent ≤ t'.sent) (hb : SndBelow t') : Inv (sys.setSide z sd') := by
+  have := inv_update sys hi z t t' sd' [] ht hsd hl fr hmono hb (fun σ h => by simp at h)
+  rw [record_nil] at this
+  exact this
+
+theorem inv_arrive (sys : Sys) (hi : Inv sys) (hroom : RoomOk sys) (x : SideId) (σ : Segment)
+    (hσ : σ ∈ sys.history) (hsrc : σ.hdr.srcPort = x.peer.port) (hdst : σ.hdr.dstPort = x.port)
+    (sys' : Sys) (r : Res) (e : sys.arrive x σ = .ok (sys', r)) : Inv sys' := by
+  unfold Sys.arrive at e
+  dsimp only at e
+  split at e
+  · rename_i tcb htcb
+    split at e
+    · simp at e
+    · rename_i tcb' h1
+      simp only [Except.ok.injEq, Prod.mk.injEq] at e
+      rw [← e.1]
+      exact inv_arrive_tcb sys hi hroom x tcb tcb' σ htcb hσ hsrc h1 _ rfl rfl
+    · simp only [Except.ok.injEq, Prod.mk.injEq] at e
+      rw [← e.1]
+      exact inv_delete sys hi x _ rfl rfl
+  · rename_i htcb
+    split at e
+    · rename_i iss mtu hlis
+      split at e
+      · simp at e
+      · simp only [Except.ok.injEq, Prod.mk.injEq] at e
+        rw [← e.1]; exact hi
+      · rename_i tcb h1
+        simp only [Except.ok.injEq, Prod.mk.injEq] at e
+        rw [← e.1]
+        exact inv_create sys hi x iss mtu σ tcb htcb hlis hσ hsrc hdst h1 _ rfl rfl
+      · rename_i h h1
+        simp only [Except.ok.injEq, Prod.mk.injEq] at e
+        rw [← e.1]
+        refine inv_respond sys hi x htcb _ (fun τ hτ => ?_)
+        simp only [List.mem_singleton] at hτ
+        subst hτ
+        -- the reply of LISTEN to an ACK-bearing segment: RST at SEG.ACK, ports swapped
+        unfold segmentArrivesListen at h1
+        dsimp only at h1
+        split at h1
+        · simp at h1
+        · split at h1
+          · simp only [Except.ok.injEq] at h1
+            cases hb : (Hdr.builder σ.hdr.dstPort σ.hdr.srcPort σ.hdr.ack).withRst.build 0 with
+            | none => rw [hb] at h1; simp at h1
+            | some h' =>
+              rw [hb] at h1
+              simp only [Option.map_some, Option.some.injEq, ListenResult.Response.injEq] at h1
+              subst h1
+              have := hdr_build_some hb
+              subst this
+              exact ⟨hdst, hsrc, rfl, rfl⟩
+          · split at h1
+            · rw [Tcb.enqueue_eq] at h1
+              simp at h1
+            · simp at h1
+    · rename_i hlis
+      split at e
+      · simp only [Except.ok.injEq, Prod.mk.injEq] at e
+        rw [← e.1]; exact hi
+      · rename_i h h1
+        simp only [Except.ok.injEq, Prod.mk.injEq] at e
+        rw [← e.1]
+        refine inv_respond sys hi x htcb _ (fun τ hτ => ?_)
+        simp only [List.mem_singleton] at hτ
+        subst hτ
+        unfold segmentArrivesClosed at h1
+        split at h1
+        · simp at h1
+        · split at h1
+          · have := hdr_build_some h1
+            subst this
+            exact ⟨hdst, hsrc, rfl, rfl⟩
+          · have := hdr_build_some h1
+            subst this
+            exact ⟨hdst, hsrc, rfl, rfl⟩
+
+/-- **one step keeps the invariant** -/
+theorem inv_step (sys : Sys) (hi : Inv sys) (hroom : RoomOk sys) (op : Op) (hc : Op.Clean sys op)
+    (sys' : Sys) (r : Res) (e : sys.step op = .ok (sys', r)) : Inv sys' := by
+  cases op with
+  | «open» x iss mtu => exact absurd hc (by simp [Op.Clean])
+  | listen x iss mtu => exact absurd hc (by simp [Op.Clean])
+  | inject x seg => exact absurd hc (by simp [Op.Clean])
+  | abort x => exact absurd hc (by simp [Op.Clean])
+  | drop x => exact absurd hc (by simp [Op.Clean])
+  | deliver x i =>
+    simp only [Sys.step] at e
+    split at e
+    · simp only [Except.ok.injEq, Prod.mk.injEq] at e
+      rw [← e.1]; exact hi
+    · rename_i σ hn
+      obtain ⟨h1, h2⟩ := hc σ hn
+      exact inv_arrive sys hi hroom x σ (nth_mem sys i σ hn) h1 h2 sys' r e
+  | write x bytes =>
+    simp only [Sys.step, Op.side] at e
+    split at e
+    · simp only [Except.ok.injEq, Prod.mk.injEq] at e
+      rw [← e.1]; exact hi
+    · rename_i tcb htcb
+      simp only [Except.ok.injEq, Prod.mk.injEq] at e
+      rw [← e.1]
+      obtain ⟨fr, hs, hb⟩ := send_local tcb bytes
+      exact inv_update0 sys hi x tcb (tcb.send bytes) _ htcb rfl rfl fr (by rw [hs]; exact Nat.le_refl _)
+        (hb ((hi.link x).snd tcb htcb).1)
+  | read x =>
+    simp only [Sys.step, Op.side] at e
+    split at e
+    · simp only [Except.ok.injEq, Prod.mk.injEq] at e
+      rw [← e.1]; exact hi
+    · rename_i tcb htcb
+      simp only [Except.ok.injEq, Prod.mk.injEq] at e
+      rw [← e.1]
+      obtain ⟨fr, hs, hb⟩ := receive_local tcb
+      exact inv_update0 sys hi x tcb tcb.receive.1 _ htcb rfl rfl fr (by rw [hs]; exact Nat.le_refl _)
+        (hb ((hi.link x).snd tcb htcb).1)
+  | tick x ms =>
+    simp only [Sys.step, Op.side] at e
+    split at e
+    · simp only [Except.ok.injEq, Prod.mk.injEq] at e
+      rw [← e.1]; exact hi
+    · rename_i tcb htcb
+      split at e
+      · simp at e
+      · rename_i tcb' h1
+        simp only [Except.ok.injEq, Prod.mk.injEq] at e
+        rw [← e.1]
+        obtain ⟨fr, hs, hb⟩ := advanceTime_local tcb ms tcb' h1
+        exact inv_update0 sys hi x tcb tcb' _ htcb rfl rfl fr (by rw [hs]; exact Nat.le_refl _)
+          (hb ((hi.link x).snd tcb htcb).1)
+      · simp only [Except.ok.injEq, Prod.mk.injEq] at e
+        rw [← e.1]
+        exact inv_delete sys hi x _ rfl rfl
+  | emit x =>
+    simp only [Sys.step, Op.side] at e
+    split at e
+    · simp only [Except.ok.injEq, Prod.mk.injEq] at e
+      rw [← e.1]; exact hi
+    · rename_i tcb htcb
+      split at e
+      · simp at e
+      · rename_i tcb' segs h1
+        simp only [Except.ok.injEq, Prod.mk.injEq] at e
+        rw [← e.1]
+        obtain ⟨b0, p1, p2⟩ := (hi.link x).snd tcb htcb
+        obtain ⟨i1, m1, b1, o1, _, lp1, rp1⟩ := segments_snd tcb tcb' segs h1 b0 (hroom x tcb htcb)
+        have rx := segments_rx tcb tcb' segs h1
+        have kp := segments_keep tcb tcb' segs h1
+        exact inv_update sys hi x tcb tcb' _ segs htcb rfl rfl
+          ⟨lp1, rp1, i1, by rw [kp.state], rx.1, by rw [rx.2]⟩ m1 b1
+          (fun σ hσ => ⟨by rw [(o1 σ hσ).2.1, p1], by rw [(o1 σ hσ).2.2, p2], (o1 σ hσ).1⟩)
+  | close x =>
+    simp only [Sys.step, Op.side] at e
+    split at e
+    · simp only [Except.ok.injEq, Prod.mk.injEq] at e
+      rw [← e.1]; exact hi
+    · rename_i tcb htcb
+      split at e
+      · simp at e
+      · rename_i tcb' r' h1
+        simp only [Except.ok.injEq, Prod.mk.injEq] at e
+        rw [← e.1]
+        obtain ⟨b0, p1, p2⟩ := (hi.link x).snd tcb htcb
+        have g := close_snd tcb tcb' r' h1
+        obtain ⟨s1, r1, e1, same1, _⟩ := close_spec tcb
+        rw [e1] at h1
+        cases h1
+        exact inv_update0 sys hi x tcb tcb' _ htcb rfl rfl
+          ⟨g.lp, g.rp, g.iss, close_synsent tcb tcb' r' e1, same1.rcv, by rw [same1.incoming]⟩
+          (g.mono (hroom x tcb htcb)) (g.below b0 (hroom x tcb htcb))
+
+/-! ## runs -/
+
+/-- a run of clean ops; before every step both endpoints have room below 2^31 sequence numbers -/
+inductive CleanRun : Sys → Sys → Prop
+  | refl (s : Sys) : CleanRun s s
+  | step {s s1 s2 : Sys} {op : Op} {r : Res} : CleanRun s s1 → RoomOk s1 → Op.Clean s1 op →
+      s1.step op = .ok (s2, r) → CleanRun s s2
+
+theorem inv_run {s s' : Sys} (h : Inv s) (r : CleanRun s s') : Inv s' := by
+  induction r with
+  | refl => exact h
+  | step _ hroom hc e ih => exact inv_step _ ih hroom _ hc _ _ e
+
+/-! ## the two ways the closed system starts -/
+
+theorem inv_empty_link (sys : Sys) (x : SideId) (hx : (sys.side x).tcb = none)
+    (hl : (sys.side x).listen = none) : Link sys x :=
+  ⟨fun t ht => by rw [hx] at ht; simp at ht, fun t ht => by rw [hx] at ht; simp at ht,
+   fun t u ht => by rw [hx] at ht; simp at ht, fun _ h => by rw [hl] at h; simp at h⟩
+
+/-- active open by A, passive open (listen binding) by B -/
+theorem inv_init_active_passive (ia ib : Seq) (ma mb : U16) (sys : Sys) (rs : List Res)
+    (e : Sys.run {} [.open .A ia ma, .listen .B ib mb] = .ok (sys, rs)) : Inv sys := by
+  simp only [Sys.run, Sys.step, Op.side] at e
+  cases h1 : Tcb.open SideId.A.port SideId.A.peer.port ia ma with
+  | error err => rw [h1] at e; simp at e
+  | ok t =>
+    rw [h1] at e
+    simp only [Except.ok.injEq, Prod.mk.injEq] at e
+    obtain ⟨b, _, _, lp, rp, st, hp⟩ := open_snd _ _ _ _ _ h1
+    rw [← e.1]
+    refine ⟨fun x => ?_, fun σ h => by simp [Sys.setSide] at h, rfl⟩
+    cases x with
+    | A =>
+      refine ⟨fun u hu => ?_, fun u _ σ h => by simp [Sys.setSide] at h, fun u w _ hw => ?_, fun h => ?_⟩
+      · simp [Sys.setSide, Sys.side] at hu; subst hu; exact ⟨b, lp, rp⟩
+      · simp [Sys.setSide, Sys.side, SideId.peer] at hw
+      · simp [Sys.setSide, Sys.side] at h
+    | B =>
+      refine ⟨fun u hu => by simp [Sys.setSide, Sys.side] at hu, fun u hu => by simp [Sys.setSide, Sys.side] at hu,
+        fun u w hu => by simp [Sys.setSide, Sys.side] at hu, fun _ _ => ⟨fun σ h => by simp [Sys.setSide] at h, fun u hu => ?_⟩⟩
+      simp [Sys.setSide, Sys.side, SideId.peer] at hu
+      subst hu
+      exact ⟨st, fun σ hσ => by rw [hp] at hσ; simp at hσ⟩
+
+/-- simultaneous open: both sides open actively -/
+theorem inv_init_simultaneous (ia ib : Seq) (ma mb : U16) (sys : Sys) (rs : List Res)
+    (e : Sys.run {} [.open .A ia ma, .open .B ib mb] = .ok (sys, rs)) : Inv sys := by
+  simp only [Sys.run, Sys.step, Op.side] at e
+  cases h1 : Tcb.open SideId.A.port SideId.A.peer.port ia ma with
+  | error err => rw [h1] at e; simp at e
+  | ok ta =>
+    rw [h1] at e
+    dsimp only at e
+    cases h2 : Tcb.open SideId.B.port SideId.B.peer.port ib mb with
+    | error err => rw [h2] at e; simp at e
+    | ok tb =>
+      rw [h2] at e
+      simp only [Except.ok.injEq, Prod.mk.injEq] at e
+      obtain ⟨ba, _, _, lpa, rpa, sta, hpa⟩ := open_snd _ _ _ _ _ h1
+      obtain ⟨bb, _, _, lpb, rpb, stb, hpb⟩ := open_snd _ _ _ _ _ h2
+      rw [← e.1]
+      refine ⟨fun x => ?_, fun σ h => by simp [Sys.setSide] at h, rfl⟩
+      cases x with
+      | A =>
+        refine ⟨fun u hu => ?_, fun u _ σ h => by simp [Sys.setSide] at h, fun u w hu hw => ?_, fun h => ?_⟩
+        · simp [Sys.setSide, Sys.side] at hu; subst hu; exact ⟨ba, lpa, rpa⟩
+        · simp [Sys.setSide, Sys.side, SideId.peer] at hw
+          subst hw
+          exact ⟨fun hne => absurd stb hne, fun σ hσ => by rw [hpb] at hσ; simp at hσ⟩
+        · simp [Sys.setSide, Sys.side] at h
+      | B =>
+        refine ⟨fun u hu => ?_, fun u _ σ h => by simp [Sys.setSide] at h, fun u w hu hw => ?_, fun h => ?_⟩
+        · simp [Sys.setSide, Sys.side] at hu; subst hu; exact ⟨bb, lpb, rpb⟩
+        · simp [Sys.setSide, Sys.side, SideId.peer] at hw
+          subst hw
+          exact ⟨fun hne => absurd sta hne, fun σ hσ => by rw [hpa] at hσ; simp at hσ⟩
+        · simp [Sys.setSide, Sys.side] at h
+
+/-- **what the invariant says about two synchronised endpoints** -/
+theorem inv_rcv_le_snd (sys : Sys) (hi : Inv sys) (hroom : RoomOk sys) (x : SideId) (t u : Tcb)
+    (ht : (sys.side x).tcb = some t) (hu : (sys.side x.peer).tcb = some u) (hs : u.state ≠ .SynSent) :
+    off t.snd.iss u.rcv.nxt ≤ off t.snd.iss t.snd.nxt ∧ off t.snd.iss t.snd.nxt < 2147483648 ∧
+      ModCmp.modGt u.rcv.nxt t.snd.nxt = false := by
+  have h1 := ((hi.link x).rcv t u ht hu).1 hs
+  have h2 : t.sent < 2147483648 := by
+    have := hroom x t ht
+    unfold Room at this; omega
+  refine ⟨h1, h2, ?_⟩
+  cases hm : ModCmp.modGt u.rcv.nxt t.snd.nxt with
+  | false => rfl
+  | true =>
+    have := (modGt_iff_off t.snd.iss u.rcv.nxt t.snd.nxt (by unfold sent at h1 h2; omega) h2).1 hm
+    unfold sent at h1
+    omega
 
 end Elvis.Tcp
